@@ -36,14 +36,15 @@ ASSUMPTIONS = [
     "files matched by one glob pattern are applied in sorted order, patterns in listed order (DOCUMENTATION: default_config_files)",
     "with default_env off the environment is ignored by parse_args / parse_string / parse_object / parse_path; parse_env always reads it",
 ]
-KEYS = ["a", "g.x", "g.y", "l", "d", "s", "pq"]  # pq: an optional positional (nargs='?'); on the command line it is only ever set through --cfg
+KEYS = ["a", "g.x", "g.y", "l", "d", "s", "pq", "m_l"]  # m_l: a list-typed option declared with a hyphen (--m-l, --m-l+); pq: an optional positional (nargs='?'); on the command line it is only ever set through --cfg
 ITEMS = ["p", "q", "r"]
+LIST_KEYS = ("l", "m_l")
 
 
 def val(k):
     if k in ("a", "g.x", "g.y", "pq"):
         return st.integers(0, 9)
-    if k == "l":
+    if k in LIST_KEYS:
         return st.lists(st.integers(0, 9), max_size=2)
     if k == "s":
         return st.sampled_from(["", "", "x", "v w", "zero"])  # a str-typed key, with the empty string well represented
@@ -54,7 +55,7 @@ def assignment(with_append=True):
     sets = st.sampled_from(KEYS).flatmap(lambda k: val(k).map(lambda v: [k, "set", v]))
     if not with_append:
         return sets
-    app = st.one_of(st.integers(0, 9), st.lists(st.integers(0, 9), min_size=1, max_size=2)).map(lambda v: ["l", "append", v])
+    app = st.tuples(st.sampled_from(["l", "l", "m_l"]), st.one_of(st.integers(0, 9), st.lists(st.integers(0, 9), min_size=1, max_size=2))).map(lambda t: [t[0], "append", t[1]])
     return st.one_of(sets, sets, sets, app)
 
 
@@ -67,8 +68,10 @@ def doc(with_append=True):
 def scenario():
     dcf_entry = st.one_of(
         st.tuples(st.sampled_from(["z_site", "m_main", "a_local", "k"]), doc()).map(lambda t: {"file": t[0], "doc": t[1]}),
+        st.sampled_from(["c_only", "c_null"]).map(lambda n: {"file": n, "doc": [], "blank": n}),  # an existing file that assigns nothing (comments only / a null document)
         st.tuples(st.sampled_from(["conf.d", "b.d"]), doc(), doc(), st.sampled_from([None, None, "20_second", "10_first"])).map(
-            lambda t: {"glob": t[0], "docs": [["20_second", t[1]], ["10_first", t[2]]], "listed_first": t[3]}),  # listed_first: one of the files is *also* listed by name before the pattern
+            lambda t: {"glob": t[0], "docs": [["20_second", t[1]], ["10_first", t[2]]], "listed_first": t[3]}),
+        st.tuples(doc(), doc()).map(lambda t: {"glob": "w.d", "docs": [["20_second", t[0]], ["10_first", t[1]]], "listed_first": None, "with_dir": True}),  # the pattern also matches a directory  # listed_first: one of the files is *also* listed by name before the pattern
     )
     cli_item = st.one_of(
         assignment().map(lambda a: ["opt", a]), assignment().map(lambda a: ["opt", a]),
@@ -105,7 +108,7 @@ def apply(state, a):
     if op == "set":
         state[k] = copy.deepcopy(v)
     elif op == "append":
-        state["l"] = list(state.get("l") or []) + (list(v) if isinstance(v, list) else [v])
+        state[k] = list(state.get(k) or []) + (list(v) if isinstance(v, list) else [v])
     elif op == "item":
         d = dict(state.get("d") or {})
         d[v[0]] = v[1]
@@ -134,6 +137,7 @@ def fold(sc):
     s = dict(copy.deepcopy(sc["defaults"]))
     s.setdefault("g.y", None)
     s.setdefault("pq", None)
+    s.setdefault("m_l", [])
     for d in dcf_docs(sc):
         for a in d:
             apply(s, a)
@@ -170,10 +174,15 @@ def run_scenario(sc, d):
         if "file" in e:
             fn = os.path.join(d, e["file"] + ".json")
             with open(fn, "w") as f:
-                json.dump(nest(e["doc"]), f)
+                if e.get("blank"):
+                    f.write("# nothing is assigned here\n" if e["blank"] == "c_only" else "# a null document\nnull\n")
+                else:
+                    json.dump(nest(e["doc"]), f)
             files.append(fn)
         else:
             os.makedirs(os.path.join(d, e["glob"]), exist_ok=True)
+            if e.get("with_dir"):
+                os.makedirs(os.path.join(d, e["glob"], "15_between.json"), exist_ok=True)
             for name, dc in e["docs"]:
                 with open(os.path.join(d, e["glob"], name + ".json"), "w") as f:
                     json.dump(nest(dc), f)
@@ -198,6 +207,7 @@ def run_scenario(sc, d):
         p.add_argument("--g.x", type=int, default=sc["defaults"]["g.x"])
         p.add_argument("--g.y", type=Optional[int])
         p.add_argument("--l", type=List[int], default=list(sc["defaults"]["l"]))
+        p.add_argument("--m-l", type=List[int], default=[])
         p.add_argument("--d", type=Dict[str, int], default=dict(sc["defaults"]["d"]))
         p.add_argument("pq", type=int, nargs="?")
         m = sc["method"]
@@ -213,9 +223,9 @@ def run_scenario(sc, d):
                         if op == "set" and k == "pq":
                             argv += ["--cfg", json.dumps({"pq": v})]
                         elif op == "set":
-                            argv.append(f"--{k}={v if k == 's' else json.dumps(v)}")
+                            argv.append(f"--{k.replace('_', '-')}={v if k == 's' else json.dumps(v)}")
                         elif op == "append":
-                            argv.append(f"--l+={json.dumps(v)}")
+                            argv.append(f"--{k.replace('_', '-')}+={json.dumps(v)}")
                         else:
                             argv.append(f"--d.{v[0]}={v[1]}")
                     elif kind == "cfgstr":
@@ -290,10 +300,10 @@ def run_case(ctx, sc):
         if G.diff(got[k], exp[k], limit=1):
             ops = per_key[k]
             envcfg_append = any(src == "envcfg" and op == "append" for _i, op, src in ops)
-            if k == "l" and envcfg_append:
+            if k in LIST_KEYS and envcfg_append:
                 ctx.finding("C04/F21/append-in-environment-config-ignores-the-list-built-so-far", {"key": k, "got": got[k], "expected": exp[k]})
             else:
-                ctx.finding(f"C04/{sc['method']}/value-differs-from-fold/{'list' if k == 'l' else 'dict' if k == 'd' else 'scalar'}-key",
+                ctx.finding(f"C04/{sc['method']}/value-differs-from-fold/{'list' if k == 'l' else 'hyphenated-list' if k == 'm_l' else 'dict' if k == 'd' else 'scalar'}-key",
                             {"key": k, "got": got[k], "expected": exp[k], "sources": ops})
     nontrivial = False
     for k, ops in per_key.items():
@@ -309,6 +319,12 @@ def run_case(ctx, sc):
     ctx.cls("dcf:%d" % len(sc["dcf"]))
     if any("glob" in e for e in sc["dcf"]):
         ctx.cls("dcf-with-glob")
+    if any(e.get("with_dir") for e in sc["dcf"]):
+        ctx.cls("dcf-glob-also-matches-a-directory")
+    if any(e.get("blank") for e in sc["dcf"]):
+        ctx.cls("dcf-file-that-assigns-nothing")
+    if any(k == "m_l" and op == "append" for kind, x in sc["cli"] for k, op, _v in ([x] if kind == "opt" else x)):
+        ctx.cls("append-to-hyphenated-option")
     if any(e.get("listed_first") for e in sc["dcf"]):
         ctx.cls("dcf-overlapping-listing")
     ctx.sample()
@@ -347,8 +363,8 @@ def self_test():
     sc = {"defaults": {"s": "dflt", "a": 1, "g.x": 2, "l": [0], "d": {"p": 1}}, "dcf": [{"file": "z_site", "doc": [["l", "append", 5]]}, {"glob": "conf.d", "docs": [["20_second", [["a", "set", 7]]], ["10_first", [["a", "set", 6]]]]}],
           "envcfg": [["d", "set", {"q": 2}]], "envvars": [["g.x", "set", 9]], "cli": [["opt", ["d", "item", ["r", 3]]], ["cfgstr", [["l", "set", [8]]]], ["opt", ["l", "append", [1, 2]]]],
           "env_mode": "on", "method": "parse_args", "final": []}
-    assert fold(sc) == {"s": "dflt", "a": 7, "g.x": 9, "l": [8, 1, 2], "d": {"q": 2, "r": 3}, "g.y": None, "pq": None}, fold(sc)
-    assert fold(dict(sc, env_mode="off")) == {"s": "dflt", "a": 7, "g.x": 2, "l": [8, 1, 2], "d": {"p": 1, "r": 3}, "g.y": None, "pq": None}
+    assert fold(sc) == {"s": "dflt", "a": 7, "g.x": 9, "l": [8, 1, 2], "d": {"q": 2, "r": 3}, "g.y": None, "pq": None, "m_l": []}, fold(sc)
+    assert fold(dict(sc, env_mode="off")) == {"s": "dflt", "a": 7, "g.x": 2, "l": [8, 1, 2], "d": {"p": 1, "r": 3}, "g.y": None, "pq": None, "m_l": []}
     assert fold(dict(sc, method="parse_env", env_mode="off"))["l"] == [0, 5]
     # the environment variable naming rule, cross-checked against what the parser's own help states
     from typing import Optional
